@@ -22,6 +22,7 @@ CONSTANTS
   ByMac = TRUE
   RacyStart = FALSE
   NarrowES = FALSE
+  CaptureMACs = {}
   MaxLoops = 3
   MaxDepth = 0
   Bounded = FALSE
